@@ -337,3 +337,142 @@ Definition mstorm_ok (readers : list rk) (xshut : list nat) (shut_errs flush_err
   forallb (fun e => err_in e [ENil; EShut]) shut_errs &&
   forallb (fun e => err_in e [ENil; EShut; ECtx]) flush_errs &&
   (length collect_after =? length readers) && forallb (fun e => err_eqb e EShut) collect_after.
+
+(** * Components used directly (not through a provider), live contexts.
+
+    One stock span processor (or log processor): spans (records) handed to it, ForceFlush and Shutdown
+    called on it directly, in any order and as often as one likes.  Its exporter is shut down by the first
+    Shutdown, exactly once if there is one and never again; after that Shutdown nothing is exported; every
+    call returns nil. *)
+Inductive dop :=
+| DOnEnd | DFlush | DShutdown
+| DOnEndDrop      (* an ended span that is not sampled: never exported *)
+| DFlushDead.     (* ForceFlush with an already-cancelled context: exports nothing; nil or the context error *)
+
+Definition count_k (k : callk) (l : list (nat * callk)) : nat :=
+  length (filter (fun c => callk_eqb (snd c) k) l).
+
+Definition dsstep (hasx : bool) (shut : bool) (o : dop) (ob : obs) : option bool :=
+  let nx := count_k KXShutdown (o_xcalls ob) in
+  let quiet := negb shut || (negb (o_wrote ob) && negb (has_export (o_xcalls ob))) in
+  let silent := negb (o_wrote ob) && negb (has_export (o_xcalls ob)) in
+  let err_ok := match o with DFlushDead => err_in (o_err ob) [ENil; ECtx] | _ => err_eqb (o_err ob) ENil end in
+  if negb (quiet && err_ok) then None else
+  match o with
+  | DShutdown => if shut then (if nx =? 0 then Some true else None)
+                 else if nx =? (if hasx then 1 else 0) then Some true else None
+  | DOnEndDrop | DFlushDead => if (nx =? 0) && silent then Some shut else None
+  | _ => if nx =? 0 then Some shut else None
+  end.
+
+Fixpoint dspec_run (hasx : bool) (shut : bool) (l : list (dop * obs)) : bool :=
+  match l with
+  | [] => true
+  | (o, ob) :: r => match dsstep hasx shut o ob with Some s' => dspec_run hasx s' r | None => false end
+  end.
+Definition dspec_ok (hasx : bool) (l : list (dop * obs)) : bool := dspec_run hasx false l.
+
+(** The same component under concurrent direct callers (and, for a span processor, a provider it is
+    registered with being shut down at the same time): observable afterwards. *)
+Definition dstorm_ok (hasx : bool) (xshut : nat) (errs : list err) : bool :=
+  (xshut =? (if hasx then 1 else 0)) && forallb (fun e => err_eqb e ENil) errs.
+
+(** One metric reader used directly and through the provider(s) it was handed to: [reg] = 0 (never handed
+    to a provider), 1, or 2 (handed to two providers: the second registration is refused, but that
+    provider's Shutdown still shuts the reader down).  Whoever shuts the reader down first (the reader's own
+    Shutdown or a provider's) gets nil and shuts the exporter down, exactly once; every later Shutdown, on the
+    reader or on a provider, reports ErrReaderShutdown, as do Collect and a periodic reader's ForceFlush;
+    nothing is exported any more.  Before that, Collect/ForceFlush work (an unregistered reader reports
+    that it is not registered). *)
+Inductive rop :=
+| ROCollect | ROFlush | ROShutdown           (* on the reader itself *)
+| ROPShutdown (second : bool) | ROPFlush (second : bool)    (* on the first / second provider *)
+| ROCollectNil.                              (* Collect(ctx, nil): refused whatever the state *)
+
+Record rspec := { rs_shut : bool; rs_x : nat; rs_once1 : bool; rs_once2 : bool }.
+
+Definition is_periodic_r (r : rk) : bool := match r with RPeriodic _ => true | RManual => false end.
+Definition prov_exists (reg : nat) (second : bool) : bool := if second then reg =? 2 else 1 <=? reg.
+
+Definition rsstep (r : rk) (reg : nat) (s : rspec) (o : rop) (ob : obs) : option rspec :=
+  let x' := rs_x s + count_k KXShutdown (o_xcalls ob) in
+  let silent := negb (o_wrote ob) && negb (has_export (o_xcalls ob)) in
+  let quiet := negb (rs_shut s) || silent in
+  let due := if periodic_std r then 1 else 0 in
+  let keep := {| rs_shut := rs_shut s; rs_x := x'; rs_once1 := rs_once1 s; rs_once2 := rs_once2 s |} in
+  if negb (quiet && (x' <=? 1)) then None else
+  match o with
+  | ROCollect =>
+      if err_eqb (o_err ob) (if rs_shut s then EShut else if reg =? 0 then EOther else ENil) && silent && (x' =? rs_x s)
+      then Some keep else None
+  | ROCollectNil =>
+      if err_eqb (o_err ob) EOther && silent && (x' =? rs_x s) then Some keep else None
+  | ROFlush | ROPFlush _ =>
+      let there := match o with ROPFlush b => prov_exists reg b | _ => true end in
+      if negb there || negb (is_periodic_r r)
+      then if err_eqb (o_err ob) ENil && silent && (x' =? rs_x s) then Some keep else None
+      else if err_eqb (o_err ob) (if rs_shut s then EShut else if reg =? 0 then EOther else ENil) && (x' =? rs_x s)
+           then Some keep else None
+  | ROShutdown =>
+      if rs_shut s
+      then if err_eqb (o_err ob) EShut && (x' =? rs_x s) then Some keep else None
+      else if err_eqb (o_err ob) ENil && (x' =? due)
+           then Some {| rs_shut := true; rs_x := x'; rs_once1 := rs_once1 s; rs_once2 := rs_once2 s |} else None
+  | ROPShutdown b =>
+      if negb (prov_exists reg b)
+      then if err_eqb (o_err ob) ENil && silent && (x' =? rs_x s) then Some keep else None
+      else
+        let again := if b then rs_once2 s else rs_once1 s in
+        let s' := {| rs_shut := true; rs_x := x';
+                     rs_once1 := if b then rs_once1 s else true; rs_once2 := if b then true else rs_once2 s |} in
+        if again || rs_shut s
+        then if err_eqb (o_err ob) EShut && (x' =? rs_x s) then Some s' else None
+        else if err_eqb (o_err ob) ENil && (x' =? due) then Some s' else None
+  end.
+
+Fixpoint rspec_run (r : rk) (reg : nat) (s : rspec) (l : list (rop * obs)) : bool :=
+  match l with
+  | [] => true
+  | (o, ob) :: t => match rsstep r reg s o ob with Some s' => rspec_run r reg s' t | None => false end
+  end.
+Definition rspec_ok (r : rk) (reg : nat) (l : list (rop * obs)) : bool :=
+  rspec_run r reg {| rs_shut := false; rs_x := 0; rs_once1 := false; rs_once2 := false |} l.
+
+(** Processors that report errors: ForceFlush of the provider stops at the first processor that fails and
+    returns its error; Shutdown tells EVERY registered processor (once each) whatever the others answered and
+    returns an error iff one of them did; Unregister shuts its processor down and keeps the error to itself. *)
+Inductive fop := FReg (p : nat) | FUnreg (p : nat) | FFlush | FShutdown.
+
+Fixpoint upto_fail (fails : nat -> bool) (members : list nat) : list nat :=
+  match members with
+  | [] => []
+  | p :: r => if fails p then [p] else p :: upto_fail fails r
+  end.
+
+Definition fsstep (fails : nat -> bool) (s : list nat * bool) (o : fop) (ob : obs) : option (list nat * bool) :=
+  let '(members, shut) := s in
+  let bad := existsb fails members in
+  match o with
+  | FReg p => if calls_eqb (o_calls ob) [] && err_eqb (o_err ob) ENil
+              then Some (if shut then members else members ++ [p], shut) else None
+  | FUnreg p => if shut || negb (mem p members)
+                then if calls_eqb (o_calls ob) [] && err_eqb (o_err ob) ENil then Some s else None
+                else if calls_eqb (o_calls ob) [(p, KShutdown)] && err_eqb (o_err ob) ENil
+                     then Some (remove_last p members, shut) else None
+  | FFlush => if calls_eqb (o_calls ob) (to_all KFlush (upto_fail fails members)) &&
+                 err_eqb (o_err ob) (if bad then EOther else ENil)
+              then Some s else None
+  | FShutdown => if shut
+                 then if calls_eqb (o_calls ob) [] && err_eqb (o_err ob) ENil then Some s else None
+                 else if calls_eqb (o_calls ob) (to_all KShutdown members) &&
+                         err_eqb (o_err ob) (if bad then EOther else ENil)
+                      then Some ([], true) else None
+  end.
+
+Fixpoint fspec_run (fails : nat -> bool) (s : list nat * bool) (l : list (fop * obs)) : bool :=
+  match l with
+  | [] => true
+  | (o, ob) :: r => match fsstep fails s o ob with Some s' => fspec_run fails s' r | None => false end
+  end.
+Definition fspec_ok (fails : nat -> bool) (members : list nat) (l : list (fop * obs)) : bool :=
+  fspec_run fails (members, false) l.
